@@ -805,9 +805,10 @@ def has_garbage(obs):
 
 def check_badbyte(sc, fault, obs, clean):
     oc = obs['outcome']
-    if oc[0] == 'err' and oc[1] == 'RbqlIOHandlingError' and 'decode' in oc[2]:
+    # an IO-handling error, whatever its wording (the class name is the API; the CLI renders it as "Error [IO handling]")
+    if oc[0] == 'err' and oc[1] == 'RbqlIOHandlingError':
         return None
-    if oc == ['exit', 1] and 'Error [IO handling]' in obs.get('stderr', '') and 'decode' in obs.get('stderr', ''):
+    if oc[0] == 'exit' and oc[1] != 0 and 'Error [IO handling]' in obs.get('stderr', ''):
         return None
     if is_success(obs):
         if has_garbage(obs):
